@@ -47,7 +47,53 @@ class Shouty(ValueError):
         return 'SHOUT'
 
 
+class NewArgs(Exception):
+    """takes its constructor arguments in __new__"""
+    def __new__(cls, a, b):
+        self = super().__new__(cls, a, b)
+        self.code = b
+        return self
+
+    def __init__(self, a, b):
+        super().__init__(a, b)
+
+
+class ThreeArgs(LookupError):
+    def __init__(self, a, b, c):
+        super().__init__(a, b, c)
+        self.c = c
+
+
+class KwOnly(Exception):
+    def __init__(self, a, *, detail):
+        super().__init__(a)
+        self.detail = detail
+
+
+class Slotted(Exception):
+    __slots__ = ('extra',)
+
+    def __init__(self, a):
+        super().__init__(a)
+        self.extra = a
+
+
+class OsSub(OSError):
+    def __init__(self, a):
+        super().__init__(7, a)
+
+
+class NoArgs(Exception):
+    def __init__(self, a):
+        super().__init__()
+        self.a = a
+
+
 EXC = {
+    'NewArgs': lambda k: NewArgs(k, 404), 'ThreeArgs': lambda k: ThreeArgs(k, 2, 3), 'KwOnly': lambda k: KwOnly(k, detail='d'),
+    'Slotted': lambda k: Slotted(k), 'OsSub': lambda k: OsSub(k), 'NoArgs': lambda k: NoArgs(k),
+    'UnicodeDecodeError': lambda k: UnicodeDecodeError('utf-8', b'\xff', 0, 1, k), 'StopIteration': lambda k: StopIteration(k),
+    'AssertionError': lambda k: AssertionError(), 'ImportError': lambda k: ImportError(k, name='m', path='p'),
     'KeyError': lambda k: KeyError(k), 'ZeroDivisionError': lambda k: ZeroDivisionError(k), 'TypeError': lambda k: TypeError(k, 2),
     'Custom': lambda k: Custom(k, {'x': 1}), 'Shouty': lambda k: Shouty(k), 'RuntimeError': lambda k: RuntimeError(k),
     'KeyboardInterrupt': lambda k: KeyboardInterrupt(k), 'SystemExit': lambda k: SystemExit(3), 'RecursionError': lambda k: RecursionError(k),
